@@ -347,10 +347,11 @@ theorem winv_clamp (s : Snd) (w : WInv s) : WInv (if s.outstanding < 0 then { s 
 /-- **an acknowledgement of new data keeps the window within the credits**: every write-list segment it
 removes is one credit, and `renoState.Update` raises the potential by at most that number -/
 theorem ackAdvance_inv (s : Snd) (ack : Nat) (w : WInv s) : WInv (ackAdvance s ack) := by
-  have w0 : WInv { s with dupAck := 0, timerEnabled := false, sndUna := ack } := ⟨w.out, w.pot, w.pos, w.ss, w.fr, w.ca⟩
+  have w0 : WInv { s with dupAck := 0, timerEnabled := false, sndUna := ack, gUna := s.gUna + sizeS s.sndUna ack } :=
+    ⟨w.out, w.pot, w.pos, w.ss, w.fr, w.ca⟩
   obtain ⟨h1, h2, h3, h4, h5, h6, k, h7, h8⟩ :=
-    ackLoop_rel (s.writeList.length + 1) { s with dupAck := 0, timerEnabled := false, sndUna := ack } (sizeS s.sndUna ack)
-  exact winv_clamp _ (advance_core { s with dupAck := 0, timerEnabled := false, sndUna := ack } _ k w0 h1 h2 h3 h4 h5 h6 h7 h8)
+    ackLoop_rel (s.writeList.length + 1) { s with dupAck := 0, timerEnabled := false, sndUna := ack, gUna := s.gUna + sizeS s.sndUna ack } (sizeS s.sndUna ack)
+  exact winv_clamp _ (advance_core { s with dupAck := 0, timerEnabled := false, sndUna := ack, gUna := s.gUna + sizeS s.sndUna ack } _ k w0 h1 h2 h3 h4 h5 h6 h7 h8)
 
 theorem sndPrepare_inv (e : Ep) (seg : InSeg) (wnd : Nat) (ts : Model.Header.TCPOpts) (w : WInv e.snd) :
     WInv (sndPrepare e seg wnd ts).1.snd := by
